@@ -4,6 +4,7 @@ import (
 	"fmt"
 	"math"
 	"math/rand"
+	"strings"
 
 	"github.com/EliCDavis/polyform/math/quaternion"
 	"github.com/EliCDavis/polyform/math/trs"
@@ -298,6 +299,11 @@ func largeCase(c *run.Ctx) run.Result {
 	}}
 	w := meshWitness(m)
 	w["description"] = desc
+	// results of the compacting operations stay alive and are re-checked (WF only) after every later call
+	keep := &keeper{wfOnly: true, only: func(n string) bool {
+		return strings.HasPrefix(n, "meshops.FilterFloat") || n == "gausops.FilterNode" || n == "meshops.RemovedUnreferencedVertices" || n == "meshops.CropFloat3Attribute"
+	}}
+	keep.add(m, "the large receiver", "")
 	applied := 0
 	before := res.Counters["chain_results_wf"]
 	for _, op := range deriving {
@@ -305,7 +311,7 @@ func largeCase(c *run.Ctx) run.Result {
 			continue
 		}
 		op := op
-		ok, _ := applyChainEnv(c, &res, r, m, desc, w, 1, env, func(modeling.Mesh) ops.Op { return op })
+		ok, _, _ := applyChainEnv(c, &res, r, m, desc, w, 1, env, func(modeling.Mesh) ops.Op { return op }, keep)
 		applied++
 		if ok > 0 {
 			res.SetAdd("large_ops_returning_mesh", op.Name)
